@@ -1,4 +1,4 @@
-#!/bin/sh
+#!/bin/bash
 # reverify_seeds.sh [ids...] : on the current /repo HEAD, each demo must exit 0 on the clean tree and non-zero with its patch
 # (scratch worktrees under /tmp, removed afterwards; 6 at a time)
 cd /verif
@@ -13,8 +13,5 @@ one() {
   st=OK; [ $c -ne 0 ] && st=CLEAN-FAILS; [ $m -eq 0 ] && st=MUTANT-PASSES
   echo "$id clean_rc=$c mutated_rc=$m $st"
 }
-for id in $IDS; do
-  one $id &
-  while [ $(jobs -r | wc -l) -ge 6 ]; do sleep 1; done
-done
-wait
+export -f one
+echo $IDS | tr ' ' '\n' | xargs -P ${JOBS:-5} -I{} bash -c 'one {}'
